@@ -19,7 +19,10 @@ import (
 //	type Item implements Node { id kind name(prefix: String, sep: String): String tags(first: Int): [String] next: Item owner: Person }
 //	type Person implements Node { id kind nick(suffix: String): String }
 //	union Thing = Item | Person
-//	type Query { tag echo(s,i,f,b,l,e,o,id) item(id) items(n, from) node(id) things(n) fail(msg) }
+//	input Nest { p: Pt, l: [Int], ps: [Pt], ll: [[Int]] }
+//	type Query { tag echo(s,i,f,b,l,e,o,id) mut(o: Pt, l: [Int], ll: [[Int]], os: [Pt], n: Nest) item(id) items(n, from) node(id) things(n) fail(msg) }
+//	(Item has mut too.)  echo and mut MUTATE the argument values they received, at every nesting level, after
+//	computing their answer: a plan that shares pre-coerced literal arguments between executions shows the residue.
 //	type Mutation { bump(by: Int): String }
 func newSchema(tag string) *graphql.Schema {
 	type item struct{ id int }
@@ -32,6 +35,26 @@ func newSchema(tag string) *graphql.Schema {
 		"x": &graphql.InputObjectFieldConfig{Type: graphql.Int, DefaultValue: 7},
 		"y": &graphql.InputObjectFieldConfig{Type: graphql.Int},
 	}})
+	nest := graphql.NewInputObject(graphql.InputObjectConfig{Name: "Nest", Fields: graphql.InputObjectConfigFieldMap{
+		"p":  &graphql.InputObjectFieldConfig{Type: pt},
+		"l":  &graphql.InputObjectFieldConfig{Type: graphql.NewList(graphql.Int)},
+		"ps": &graphql.InputObjectFieldConfig{Type: graphql.NewList(pt)},
+		"ll": &graphql.InputObjectFieldConfig{Type: graphql.NewList(graphql.NewList(graphql.Int))},
+	}})
+	mutArgs := graphql.FieldConfigArgument{
+		"o": &graphql.ArgumentConfig{Type: pt}, "l": &graphql.ArgumentConfig{Type: graphql.NewList(graphql.Int)},
+		"ll": &graphql.ArgumentConfig{Type: graphql.NewList(graphql.NewList(graphql.Int))},
+		"os": &graphql.ArgumentConfig{Type: graphql.NewList(pt)}, "n": &graphql.ArgumentConfig{Type: nest},
+	}
+	// answer first, then scribble over everything that was received
+	echoAndMutate := func(p graphql.ResolveParams) (interface{}, error) {
+		b, err := json.Marshal(p.Args) // sorted keys
+		if err != nil {
+			return nil, err
+		}
+		mutateDeep(p.Args)
+		return tag + ":" + string(b), nil
+	}
 	idOf := func(v interface{}) int {
 		switch x := v.(type) {
 		case item:
@@ -87,6 +110,7 @@ func newSchema(tag string) *graphql.Schema {
 						}
 						return out, nil
 					}},
+				"mut":   &graphql.Field{Type: graphql.String, Args: mutArgs, Resolve: echoAndMutate},
 				"next":  &graphql.Field{Type: itemT, Resolve: func(p graphql.ResolveParams) (interface{}, error) { return item{idOf(p.Source) + 1}, nil }},
 				"owner": &graphql.Field{Type: personT, Resolve: func(p graphql.ResolveParams) (interface{}, error) { return person{idOf(p.Source) * 10}, nil }},
 			}
@@ -117,13 +141,8 @@ func newSchema(tag string) *graphql.Schema {
 			"f": &graphql.ArgumentConfig{Type: graphql.Float}, "b": &graphql.ArgumentConfig{Type: graphql.Boolean},
 			"l": &graphql.ArgumentConfig{Type: graphql.NewList(graphql.Int)}, "e": &graphql.ArgumentConfig{Type: color},
 			"o": &graphql.ArgumentConfig{Type: pt}, "id": &graphql.ArgumentConfig{Type: graphql.ID},
-		}, Resolve: func(p graphql.ResolveParams) (interface{}, error) {
-			b, err := json.Marshal(p.Args) // sorted keys
-			if err != nil {
-				return nil, err
-			}
-			return tag + ":" + string(b), nil
-		}},
+		}, Resolve: echoAndMutate},
+		"mut": &graphql.Field{Type: graphql.String, Args: mutArgs, Resolve: echoAndMutate},
 		"item": &graphql.Field{Type: itemT, Args: graphql.FieldConfigArgument{"id": &graphql.ArgumentConfig{Type: graphql.Int}},
 			Resolve: func(p graphql.ResolveParams) (interface{}, error) { return item{intArg(p, "id", 0)}, nil }},
 		"items": &graphql.Field{Type: graphql.NewList(itemT), Args: graphql.FieldConfigArgument{"n": &graphql.ArgumentConfig{Type: graphql.Int}, "from": &graphql.ArgumentConfig{Type: graphql.Int}},
@@ -159,11 +178,47 @@ func newSchema(tag string) *graphql.Schema {
 		"bump": &graphql.Field{Type: graphql.String, Args: graphql.FieldConfigArgument{"by": &graphql.ArgumentConfig{Type: graphql.Int}},
 			Resolve: func(p graphql.ResolveParams) (interface{}, error) { return fmt.Sprintf("%s:bump%d", tag, intArg(p, "by", 1)), nil }},
 	}})
-	s, err := graphql.NewSchema(graphql.SchemaConfig{Query: query, Mutation: mutation, Types: []graphql.Type{itemT, personT, thing, color, pt}})
+	s, err := graphql.NewSchema(graphql.SchemaConfig{Query: query, Mutation: mutation, Types: []graphql.Type{itemT, personT, thing, color, pt, nest}})
 	if err != nil {
 		panic("test schema does not build: " + err.Error())
 	}
 	return &s
+}
+
+// mutateDeep overwrites list elements, sets, adds and deletes input-object keys, at every nesting level.
+func mutateDeep(v interface{}) {
+	switch x := v.(type) {
+	case map[string]interface{}:
+		keys := make([]string, 0, len(x))
+		for k := range x {
+			keys = append(keys, k)
+		}
+		for _, k := range keys {
+			switch e := x[k].(type) {
+			case map[string]interface{}, []interface{}:
+				mutateDeep(e)
+			case int:
+				x[k] = e + 1000
+			case nil:
+			default:
+				delete(x, k)
+			}
+		}
+		delete(x, "y")
+		x["zz"] = "residue"
+	case []interface{}:
+		for i, e := range x {
+			switch ee := e.(type) {
+			case map[string]interface{}, []interface{}:
+				mutateDeep(ee)
+			default:
+				x[i] = -1
+			}
+		}
+		for i, j := 0, len(x)-1; i < j; i, j = i+1, j-1 {
+			x[i], x[j] = x[j], x[i]
+		}
+	}
 }
 
 // poolEntry is a request text with the operation names and variable assignments worth trying on it.
@@ -249,6 +304,20 @@ func families() [][]poolEntry {
 			e("shape", `{ ...F tag } fragment F on Query { item(id: 4) { ...G } } fragment G on Item { id kind }`, true),
 			e("shape", `{ fail(msg: "m1") tag }`, true), e("shape", `{ fail(msg: "m2") tag }`, true),
 			e("shape", `mutation { bump(by: 2) }`, true), e("shape", `mutation { bump(by: 3) }`, true),
+		},
+		{ // list / input-object literals handed to resolvers that mutate what they receive (plan reuse must not show residue)
+			e("mutargs", `{ mut(o: {x: 1, y: 2}, l: [3, 1, 2]) }`, true), e("mutargs", `{ mut(o: {x: 1, y: 3}, l: [3, 1, 2]) }`, true),
+			e("mutargs", `{ mut(ll: [[1, 2], [3]], os: [{x: 1, y: 2}, {y: 5}]) }`, true), e("mutargs", `{ mut(ll: [[1, 2], [4]], os: [{x: 1, y: 2}, {y: 5}]) }`, true),
+			e("mutargs", `{ mut(n: {p: {x: 1, y: 2}, l: [1, 2], ps: [{y: 1}, {x: 2, y: 2}], ll: [[7], [8, 9]]}) }`, true),
+			e("mutargs", `{ mut(n: {p: {x: 1, y: 2}, l: [1, 2], ps: [{y: 1}, {x: 2, y: 3}], ll: [[7], [8, 9]]}) }`, true),
+			e("mutargs", `{ a: mut(l: [1, 2]) b: mut(l: [1, 2]) item(id: 1) { mut(os: [{y: 1}]) next { mut(ll: [[1], [2, 3]]) } } }`, true),
+			e("mutargs", `{ items(n: 3) { mut(o: {y: 4}, l: [5, 6]) } }`, true), e("mutargs", `{ items(n: 2) { mut(o: {y: 4}, l: [5, 6]) } }`, true),
+			e("mutargs", `{ ...F } fragment F on Query { mut(os: [{x: 1, y: 2}], ll: [[1, 2], [3]], n: {l: [4, 5], p: {y: 6}}) echo(l: [9, 8], o: {y: 7}) }`, true),
+			e("mutargs", `{ ...F } fragment F on Query { mut(os: [{x: 1, y: 2}], ll: [[1, 2], [3]], n: {l: [4, 5], p: {y: 7}}) echo(l: [9, 8], o: {y: 7}) }`, true),
+			e("mutargs", `{ node(id: 2) { ... on Item { mut(l: [3, 1, 2], n: {ps: [{y: 1}]}) } } things(n: 3) { ... on Item { mut(ll: [[1, 2]]) } } }`, true),
+			e("mutargs", `{ item(id: 2) { ...G } } fragment G on Item { mut(o: {x: 5, y: 6}, os: [{y: 1}, {y: 2}]) }`, true),
+			ev("mutargs", `query Q($o: Pt, $l: [Int], $n: Nest) { mut(o: $o, l: $l, n: $n, ll: [[1], [2]]) }`, true, []string{"Q"},
+				V("o", map[string]interface{}{"y": 2}, "l", []interface{}{1, 2, 3}), V("n", map[string]interface{}{"l": []interface{}{1}, "ps": []interface{}{map[string]interface{}{"y": 1}}}), nil),
 		},
 		{ // rejected requests: parse errors, validation errors, wrong literal types (errors are cached too)
 			e("invalid", `{ nope }`, true), e("invalid", `{ nope2 }`, true), e("invalid", `{`, true), e("invalid", `{ tag `, true),
